@@ -82,7 +82,11 @@ func ParsePath(path string) (PathType, PathSubType, error) {
 
 // GetRepo returns repo name
 func GetRepo(path string) (string, error) {
-	re := regexp.MustCompile("^.+/repositories/(.+)/(?:_manifests|_layers|_uploads)")
+	// Both quantifiers are lazy: the repository starts after the first
+	// "/repositories/" and ends before the first section directory. Repository
+	// components may be named "repositories" but can never start with "_",
+	// whereas tags may be named "_manifests", "_layers" or "_uploads".
+	re := regexp.MustCompile("^.+?/repositories/(.+?)/(?:_manifests|_layers|_uploads)")
 	matches := re.FindStringSubmatch(path)
 	if len(matches) < 2 {
 		return "", InvalidRegistryPathError{_repositories, path}
